@@ -164,7 +164,7 @@ pub fn decode_env_case(data: &[u8]) -> arbitrary::Result<EnvCase> {
     if steps.is_empty() {
         steps.push(StepSpec { toggle: None, instrs: vec![] });
     }
-    Ok(EnvCase { kind_assets, levels, ticks, t0: 0, step_size, trading, seed, steps, drain: true, exact_vols: false })
+    Ok(EnvCase { kind_assets, levels, ticks, t0: 0, step_size, trading, seed, steps, drain: true, exact_vols: false, quiet_steps: 0 })
 }
 
 pub fn fuzz_env(data: &[u8]) {
